@@ -1818,7 +1818,7 @@ def _read_next_consuming_comment(ctx: ReaderContext) -> RawReaderForm:
     while True:
         v = _read_next(ctx)
         if v is ctx.eof:
-            return cast(RawReaderForm, ctx.eof)
+            raise ctx.eof_error("Unexpected EOF; expected a form")
         if v is COMMENT or isinstance(v, Comment):
             continue
         return v
